@@ -89,6 +89,12 @@ def run(tier: str) -> int:
                 # tree (this recipe), not about its renamed form (`Check.renameOk` for the discovered bindings)?
                 orig = d.ask(f"c01-original {v} {case.teal.encode().hex()} {case.sexp}")
                 stats["original_theorem:" + " ".join(w for w in orig.split(" ") if w.split("=")[0] in ("original", "valid", "fragment", "renameOk"))] += 1
+                if "original=true" not in orig:
+                    # outside the call-free theorem (WideRatio): the program-level theorem of C02 (`compile_correct_original_prog`, whose
+                    # fragment covers WideRatio under the side conditions W1/W2) may still apply to this program read as one without subroutines
+                    comp = d.ask(f"composed-sexp {v} 0 {case.teal.encode().hex()} {case.sexp}")
+                    stats["original_theorem (program-level, for trees outside the call-free fragment):" + comp.split(" ")[0]
+                          + (" original=true" if " original=true" in comp else " original=false")] += 1
             bad = exec_diff(case, r, cfg["nctx"], stats)
             if ok and bad is None:
                 validated += 1
